@@ -149,10 +149,12 @@ let parse_events s =
 
 let spec_case line =
   let steps = List.filter (fun s -> s <> "") (String.split_on_char ' ' line) in
-  let log = ref [] in
+  (* the ledger of the events so far = led_list of the log; extended one event at a time with the
+     extracted led_step (led_list (e :: l) = led_step e (led_list l) is the definition of led_list) *)
+  let acc = ref (rg_led []) in
   let outs = List.map (fun st ->
-    List.iter (fun e -> log := e :: !log) (parse_events st);
-    let l = List.map (fun (p, r) -> (i_of_n p, r)) (rg_led !log) in
+    List.iter (fun e -> acc := rg_led_step e !acc) (parse_events st);
+    let l = List.map (fun (p, r) -> (i_of_n p, r)) !acc in
     let l = List.sort compare l in
     String.concat "," (List.map (fun (k, r) -> Printf.sprintf "%d:%d" k (if r then 1 else 0)) l)) steps in
   String.concat " | " outs
